@@ -18,6 +18,7 @@ type prePair struct {
 	seqKey  string // captured sequence term (closures)
 	seqName string
 	strict  bool
+	ints    bool // sp is another int parameter: parameter ip <= parameter sp (the bounds of a window)
 }
 
 type invPair struct{ f, s string }
@@ -72,6 +73,16 @@ func (a *idxAnalyzer) entryZone() *zone {
 		ps = paramList(fl)
 		for _, pp := range a.pre[a.curID] {
 			if pp.ip >= len(ps) || ps[pp.ip] == nil {
+				continue
+			}
+			if pp.ints {
+				if pp.sp < len(ps) && ps[pp.sp] != nil {
+					ik, ok1 := a.termKey(ps[pp.ip])
+					jk, ok2 := a.termKey(ps[pp.sp])
+					if ok1 && ok2 {
+						z.add(ik, jk, 0)
+					}
+				}
 				continue
 			}
 			ik, ok1 := a.termKey(ps[pp.ip])
@@ -583,6 +594,28 @@ func (a *idxAnalyzer) checkCallPre(z *zone, call *ast.CallExpr) {
 		if pp.ip >= len(call.Args) || pp.sp >= len(call.Args) {
 			continue
 		}
+		if pp.ints {
+			il, ok1 := a.lin(call.Args[pp.ip])
+			jl, ok2 := a.lin(call.Args[pp.sp])
+			ok := ok1 && ok2 && a.proveLE(z, linSub(il, jl), 0)
+			what := fmt.Sprintf("%s(…): argument %s <= argument %s", id.Name(), exprStr(call.Args[pp.ip]), exprStr(call.Args[pp.sp]))
+			dup := false
+			for i := range a.callObls {
+				if a.callObls[i].pos == call.Pos() && a.callObls[i].what == what {
+					dup = true
+					if !ok {
+						a.callObls[i].ok = false
+					}
+				}
+			}
+			if !dup {
+				a.callObls = append(a.callObls, idxCallObl{fn: a.curFn, pos: call.Pos(), what: what, ok: ok})
+			}
+			if idxDebug != "" && !ok && strings.Contains(a.r.pos(call.Pos()), idxDebug) {
+				fmt.Printf("IDXDEBUG call %s %s\n   %s\n", a.r.pos(call.Pos()), what, z.dump())
+			}
+			continue
+		}
 		il, ok1 := a.lin(call.Args[pp.ip])
 		var sl *linExpr
 		seqName := pp.seqName
@@ -788,23 +821,57 @@ func (a *idxAnalyzer) summariseUnit(id types.Object, sig *types.Signature, ft *a
 				continue
 			}
 			_ = assigned
-			all := len(a.retStates) > 0
-			for _, rc := range a.retStates {
-				if len(rc.rs.Results) != sig.Results().Len() {
-					all = false
-					break
-				}
-				lr, ok1 := a.lin(rc.rs.Results[ri])
-				lp, ok2 := &linExpr{t: map[string]int{"entry#" + pk: 1}}, true
-				if !ok1 || !ok2 || !a.proveLE(rc.z, linSub(lp, lr), 0) {
-					all = false
-					break
+			// unconditionally, or only when a boolean result answers true (returns whose ok result is the
+			// literal false are then not claimed); a return that forwards a call inherits the callee's fact
+			// when the argument in the callee's slot is itself at or above the parameter's entry value
+			conds := []int{-1}
+			for ci := 0; ci < sig.Results().Len(); ci++ {
+				if b, ok := sig.Results().At(ci).Type().Underlying().(*types.Basic); ok && b.Kind() == types.Bool {
+					conds = append(conds, ci)
 				}
 			}
-			if all {
-				facts = append(facts, retFact{res: ri, param: pj, geParam: true, whenOK: -1})
+			for _, cond := range conds {
+				all := len(a.retStates) > 0
+				claimed := 0
+				for _, rc := range a.retStates {
+					lp := &linExpr{t: map[string]int{"entry#" + pk: 1}}
+					if len(rc.rs.Results) == 1 && sig.Results().Len() > 1 {
+						call, ok := ast.Unparen(rc.rs.Results[0]).(*ast.CallExpr)
+						if !ok || !a.forwardedGE(rc.z, call, ri, lp, cond) {
+							all = false
+							break
+						}
+						claimed++
+						continue
+					}
+					if len(rc.rs.Results) != sig.Results().Len() {
+						all = false
+						break
+					}
+					if cond >= 0 {
+						if id, ok := ast.Unparen(rc.rs.Results[cond]).(*ast.Ident); ok && id.Name == "false" {
+							continue
+						}
+					}
+					lr, ok1 := a.lin(rc.rs.Results[ri])
+					if !ok1 || !a.proveLE(rc.z, linSub(lp, lr), 0) {
+						if idxDebug != "" && strings.Contains(id.Name(), idxDebug) {
+							fmt.Printf("IDXDEBUG ge-fail %s cond=%d ret@%s res=%s lin=%v\n   %s\n", id.Name(), cond, a.r.pos(rc.rs.Pos()), exprStr(rc.rs.Results[ri]), ok1, rc.z.dump())
+						}
+						all = false
+						break
+					}
+					claimed++
+				}
+				if all && claimed > 0 {
+					facts = append(facts, retFact{res: ri, param: pj, geParam: true, whenOK: cond})
+					break
+				}
 			}
 		}
+	}
+	if idxDebug != "" && strings.Contains(id.Name(), idxDebug) {
+		fmt.Printf("IDXDEBUG unit-summary %s final=%v facts=%+v\n", id.Name(), a.final, facts)
 	}
 	if len(facts) > 0 {
 		a.retLE[id] = facts
@@ -908,6 +975,13 @@ func (a *idxAnalyzer) runAll(fds []*ast.FuncDecl) {
 				captured := map[string]string{}
 				if lit := a.litOf[id]; lit != nil {
 					captured = a.capturedSeqs(lit)
+				}
+				// window bounds: two int parameters used as the low and the high bound of one slice
+				// expression of the body (s[lo:hi]) — lo <= hi is the caller's to establish
+				if f, ok := id.(*types.Func); ok && a.litOf[id] == nil {
+					for _, w := range a.windowParams(a.declOf[f], ps) {
+						pairs = append(pairs, prePair{ip: w[0], sp: w[1], ints: true})
+					}
 				}
 				for i, ip := range ps {
 					if ip == nil || !isIntType(a.info.TypeOf(ip)) {
@@ -1344,4 +1418,64 @@ func (a *idxAnalyzer) paramFuncFacts(fds []*ast.FuncDecl) {
 		}
 		a.retLE[po] = shared[po]
 	}
+}
+
+// windowParams lists the pairs (lo, hi) of int parameters that appear as the two bounds of one
+// slice expression in the body.
+func (a *idxAnalyzer) windowParams(fd *ast.FuncDecl, ps []*ast.Ident) [][2]int {
+	if fd == nil || fd.Body == nil {
+		return nil
+	}
+	idx := map[types.Object]int{}
+	for i, p := range ps {
+		if p != nil && isIntType(a.info.TypeOf(p)) {
+			idx[a.info.Defs[p]] = i
+		}
+	}
+	seen := map[[2]int]bool{}
+	var out [][2]int
+	ast.Inspect(fd.Body, func(n ast.Node) bool {
+		se, ok := n.(*ast.SliceExpr)
+		if !ok || se.Low == nil || se.High == nil {
+			return true
+		}
+		lo, ok1 := ast.Unparen(se.Low).(*ast.Ident)
+		hi, ok2 := ast.Unparen(se.High).(*ast.Ident)
+		if !ok1 || !ok2 {
+			return true
+		}
+		i, okI := idx[a.info.Uses[lo]]
+		j, okJ := idx[a.info.Uses[hi]]
+		if okI && okJ && i != j && !seen[[2]int{i, j}] {
+			seen[[2]int{i, j}] = true
+			out = append(out, [2]int{i, j})
+		}
+		return true
+	})
+	return out
+}
+
+// forwardedGE: does result ri of the forwarded call stay at or above lp (a parameter's entry value) by
+// the callee's own "result >= parameter" summary?
+func (a *idxAnalyzer) forwardedGE(z *zone, call *ast.CallExpr, ri int, lp *linExpr, cond int) bool {
+	var id types.Object
+	switch f := ast.Unparen(call.Fun).(type) {
+	case *ast.Ident:
+		id = a.info.Uses[f]
+	case *ast.SelectorExpr:
+		if sel, ok := a.info.Selections[f]; ok {
+			id = sel.Obj()
+		} else {
+			id = a.info.Uses[f.Sel]
+		}
+	}
+	for _, f := range a.retLE[id] {
+		if !f.geParam || f.res != ri || (f.whenOK >= 0 && f.whenOK != cond) || f.param >= len(call.Args) {
+			continue
+		}
+		if la, ok := a.lin(call.Args[f.param]); ok && a.proveLE(z, linSub(lp, la), 0) {
+			return true
+		}
+	}
+	return false
 }
